@@ -86,7 +86,14 @@ pub fn run(rep: &mut Report) {
     rep.rule = "S: cell = (b, m, register type, n, repeats) with a and q chosen as documented (a >= ln(m/eps)/b, q >= log_b(m n a/eps), eps=1e-6); per trial n fresh random items are sketched by the real code and the relative error e = est/n - 1 recorded; staged tests: -2 rsd^2 <= E[e] <= 2 rsd^2, and for m >= 64 (0.85 rsd)^2 <= E[e^2] <= (1.15 rsd)^2; the advertised rsd returned by get_cardinal_stats is compared with the formula. E: after every sketch/merge of long random histories the estimate must not decrease; serial vs parallel estimator within 4 m 2^-52 relative. M: the parallel estimator under rayon pools of 1,2,3,5,16 threads, repeated; distinct floating point results recorded. Distinct = cells and histories; non-trivial when n >= 2".into();
     // ---------------- S part
     let t1: u64 = rep.tier.pick(3000, 30_000);
-    let bs = [1.001, 1.2, 1.5, 2.0];
+    // fixed bases plus seeded ones (a b-dependent branch with a threshold between two grid values would otherwise never run)
+    let mut bs = vec![1.001, 1.2, 1.5, 2.0];
+    {
+        let mut r = rng_from(subseed(rep.seed, "C06/b", &[]));
+        for _ in 0..rep.tier.pick(1, 4) {
+            bs.push(((1. + 10f64.powf(r.random_range(-2.5..0.0))) * 1e4f64).round() / 1e4);
+        }
+    }
     let ms = [64u64, 100, 256, 4096];
     let ns: Vec<usize> = rep.tier.pick(vec![1, 10, 1000, 100_000], vec![1, 10, 1000, 100_000, 1_000_000, 4_000_000]);
     let mut ci = 0u64;
